@@ -13,7 +13,7 @@ RULE = ("expression trees over all intrinsic + defined operators in both spellin
 ASSUMPTIONS = ["regex lexing of operators is tied by tabulated tables and co-simulation, not proved",
                "known boundary F-C03-1 (defined binary operator followed by a dotted token at the same parenthesis level) is "
                "the negated hypothesis of parse_render_partial"]
-TIE_MODULES = ["FparserModel.Expr", "FparserModel.Props.ExprTie", "FparserModel.Generated.ExprLevels", "FparserModel.ExprLex", "FparserModel.Generated.ExprLexTables"]
+TIE_MODULES = ["FparserModel.Expr", "FparserModel.Props.ExprTie", "FparserModel.Generated.ExprLevels", "FparserModel.ExprLex", "FparserModel.Generated.ExprLexTables", "FparserModel.Primary", "FparserModel.PrimaryPins", "FparserModel.Generated.PrimaryTables"]
 
 
 def wide_cases(rng, n):
@@ -163,6 +163,7 @@ def exprlex_cosim(tier, rep):
 
 
 def run(tier, rep, st):
+    util.sub_cosim(rep, tier, "cosim_primary", "Fp.Primary", 40, 400)
     exprlex_cosim(tier, rep)
     # the level table read from the repository must be the model's (also a kernel
     # obligation in Props/ExprTie.lean)
